@@ -2,6 +2,6 @@
 # usage: tools/try_patch.sh <seed dir name (under seeded/ or seeded/benign/)> <PROP...>  -- apply to scratch copy and run checks verbosely
 id=$1; shift
 d=/verif/seeded/$id; [ -d $d ] || d=/verif/seeded/benign/$id
-s=$(mktemp -d /tmp/try_XXXX); cp -r /repo/src $s/src; (cd $s && git apply $d/patch.diff 2>/dev/null || patch -p1 --fuzz=3 -s -i $d/patch.diff)
+s=$(mktemp -d /tmp/try_XXXX); cp -r /repo/src $s/src; (cd $s && git apply $d/patch.diff 2>/dev/null || patch -p1 --fuzz=0 -s -i $d/patch.diff)
 for p in "$@"; do (cd /verif && /venv/bin/python -m emsverif check $p --repo $s --no-evidence 2>&1 | grep -E "VIOLATED|ANALYSIS|^\[" ); done
 rm -rf $s
